@@ -112,9 +112,15 @@ package ompt
 //@   modifies l.state
 
 // deserialize builds a node from bytes (trusted here; the callers are checked for what they hand over)
+// (deser_err / resolve_err / resolve_n: the error of the last deserialize, the error of the last
+// node.resolve through the interface and the number of such calls)
+//@ smt all (declare-ghost deser_err Iface)
+//@ smt all (declare-ghost resolve_err Iface)
+//@ smt all (declare-ghost resolve_n Int)
 //@ func deserialize(h, serialized, state) (n, err)
 //@   trusted
 //@   modifies *
+//@   opt ghost:deser_err err
 
 // compareKeys: length of the common prefix, and whether the two nibble strings are equal
 //@ func compareKeys(k1, k2) (cnt, match)
@@ -278,6 +284,8 @@ package ompt
 //@   iface
 //@   trusted
 //@   modifies *
+//@   opt ghost:resolve_err err
+//@   opt ghost:resolve_n ghost(resolve_n) + 1
 //@ func (m *mpt) resolve(d, pNode)
 //@   arith int
 //@   nosafety
@@ -307,6 +315,7 @@ package ompt
 //@   requires r != nil
 //@   callpre deserialize: h == caller_r.hash && serialized == bs
 //@   callpre resolve: m == caller_r.mpt && bd == caller_bd
+//@   ensures [delivered_only_when_resolved] err == nil ==> ghost(deser_err) == nil && ghost(resolve_n) == old(ghost(resolve_n)) + 1 && ghost(resolve_err) == nil
 //@ func (n *leaf) resolve(m, bd) (err)
 //@   arith int
 //@   nosafety
